@@ -19,6 +19,8 @@ Bounds == {L_dash, L_plus} \cup Ids \cup {B(ms) : ms \in Grid}
 StreamCmds ==
        {<<L_xadd, xk, id>> \o F1 : id \in Ids}
   \cup {<<L_xadd, xk, B(ms) \o L_dash \o L_star>> \o F1 : ms \in Grid}
+  \* the end of the id space: the last id, then a partial id in the same millisecond (no next sequence number)
+  \cup {<<L_xadd, xk, BigStr(Int64Max) \o L_dash \o BigStr(Int64Max)>> \o F1, <<L_xadd, xk, BigStr(Int64Max) \o L_dash \o L_star>> \o F1}
   \cup {<<L_xadd, xk, B(1)>> \o F1, <<L_xadd, xk, Id(2, 2)>> \o F2, <<L_xadd, xk, <<97>>>> \o F1, <<L_xadd, xk, Id(1, 1), <<102>>>>,
         <<L_xadd, xk, Id(1, 1), <<102>>, <<97>>, <<103>>>>, <<L_xadd, sk, Id(1, 1)>> \o F1, <<L_xadd, xk, Id(1, 1)>>,
         <<L_xadd, nk, L_nomkstream, Id(1, 1)>> \o F1, <<L_xadd, xk, L_nomkstream, Id(2, 1)>> \o F1}
